@@ -1,7 +1,22 @@
 (* C14 - Deferred-returning tests succeed iff all completed cleanly; reactor left clean.
    The statement as an executable predicate over (input, observation) and as a
    readable Prop.  Written from the property text: a static plan of the stages,
-   prefix sums of their delays, "every planned stage fired before the cut". *)
+   prefix sums of their delays, "every planned stage fired before the cut".
+   Clause by clause (spec_okb / Spec):
+     1 the next stage starts only after the previous one has fired, cleanups in reverse order:
+       the observed stage log equals the plan walked along the clock, stopping at the first
+       stage that has not fired when the run is cut (nothing may start after it);
+     2 exactly one outcome between startTest and stopTest;
+     3 success iff every planned stage fired in time, none raised / failed / logged an error /
+       dropped a failed Deferred / started a poller, and no leftover delayed call was still
+       scheduled at the end ("left scheduled" is a fact of the run: it is read off the
+       OBSERVED number of leftover calls that never ran, not recomputed here);
+     4 a cut (timeout or interrupt) yields addError, and result.stop() exactly for an interrupt;
+     5 whatever happened: getDelayedCalls() is empty, the log observers are those installed before.
+   Nothing is demanded of what propagates out of run() (C01) nor of the cleanups that stay
+   registered after a cut (the statement is silent about them).  A Deferred due exactly at the
+   cut instant counts as not fired: the Spinner's timeout call is older than every call of the
+   test, and an interrupt is delivered before the calls due at its instant. *)
 From TT Require Import Lib.Base Model.AsyncRun.
 
 Definition input := program.
